@@ -30,10 +30,12 @@ REAL_STUB_TABLE = {
         "kernel file semantics (tmpfs directory): O_EXCL, O_TRUNC, rename atomicity",
     ],
     "simulated": [
-        "raw file object (reads/writes are events), mtime clock, pid, scheduler, crash/kill, I/O errors",
+        "raw file object (reads/writes are events), mtime clock, pid, scheduler, crash/kill, I/O errors (write, read, open, stat, rename)",
+        "process exit: atexit callbacks registered by the tool are collected and run when the simulated process ends, then logging is shut down",
+        "process boundary in C16/C17 and for reference computations in C15: a forked child of the interpreter (module globals, memo tables and the logging tree of one simulated process never reach the next)",
     ],
     "stub": [
-        "operating-system processes: threads of one interpreter under a baton-passing scheduler, sharing module globals",
+        "racing processes in C15: threads of one interpreter under a baton-passing scheduler, sharing module globals",
         "PretextView: a generator of PretextView-model AGP maps (workload only)",
     ],
 }
